@@ -30,6 +30,10 @@ def base_files(rnd):
     ents = [{"clen": len(s_), "ulen": len(c), "digest": ref.digest(3, s_)} for c, s_ in zip(chunks, stored)]
     body = b"".join(stored)
     out.append(("v-emptyframe-dict", ref.build_header(hash_type=1, chunk_hash_type=3, flags=0, comp_type=2, entries=ents, data_digest=ref.digest(1, body)) + body))
+    # repeated identical chunks: the same checksum several times in the index
+    rep = corpus.text(rnd, 50)
+    for comp in (0, 2):
+        out.append(("v-dup-c%d" % comp, ref.build_file([b"", rep, corpus.text(rnd, 20), rep, rep], comp_type=comp, hash_type=1, chunk_hash_type=3)[0]))
     # an unusual but legal layout: the stored header length exceeds what the sections need (padded header)
     for comp, dic, pad in ((0, False, 1), (2, True, 37)):
         chunks = [corpus.text(rnd, 30) if dic else b""] + [corpus.text(rnd, n) for n in (50, 20, 70)]
